@@ -21,7 +21,7 @@ fn rfc_block_size(code: u64, extra: u64) -> Option<u32> {
     }
 }
 
-// @harness prop=C03,C05 tier=quick expect=pass timeout=300
+// @harness prop=C03,C04,C05 tier=quick expect=pass timeout=300
 // @units stream::BlockSize<()>::from_reader stream::BlockSize<u16>::from_reader stream::BlockSize::into_u16
 // @bound all 16 block-size codes, all 8- and 16-bit uncommon values
 // @oracle value == RFC 9639 block size table (144*2^n, 2^n, uncommon+1); code 0000 => Err(InvalidBlockSize); uncommon 16-bit value 65535 (block size 65536, not representable in STREAMINFO) => Err
@@ -73,7 +73,7 @@ fn rfc_sample_rate(code: u64, extra: u64, streaminfo: Option<u32>) -> Result<u32
     }
 }
 
-// @harness prop=C03,C05 tier=quick expect=pass timeout=300
+// @harness prop=C03,C04,C05 tier=quick expect=pass timeout=300
 // @units stream::SampleRate<()>::from_reader stream::SampleRate<u32>::from_reader stream::SampleRate::into_u32
 // @bound all 16 sample-rate codes, all 8/16-bit uncommon values, STREAMINFO rate present (any 20-bit value) or absent
 // @oracle value == RFC 9639 sample rate table; 1111 => Err(InvalidSampleRate); 0000 without STREAMINFO => Err(NonSubsetSampleRate)
@@ -103,7 +103,7 @@ fn c03_hdr_sample_rate_table() {
     }
 }
 
-// @harness prop=C03,C05 tier=quick expect=pass timeout=300
+// @harness prop=C03,C04,C05 tier=quick expect=pass timeout=300
 // @units stream::ChannelAssignment::from_reader stream::ChannelAssignment::count
 // @bound all 16 channel-assignment codes
 // @oracle 0..=7 => n+1 independent channels; 8/9/10 => left-side/side-right/mid-side (2 channels); 11..=15 => Err(InvalidChannels)
@@ -129,7 +129,7 @@ fn c03_hdr_channel_assignment_table() {
     }
 }
 
-// @harness prop=C03,C05 tier=quick expect=pass timeout=300
+// @harness prop=C03,C04,C05 tier=quick expect=pass timeout=300
 // @units stream::BitsPerSample::from_reader stream::BitsPerSample::into_u32 stream::BitsPerSample::checked_add
 // @bound all 8 bit-depth codes; STREAMINFO depth present (1..=32) or absent
 // @oracle RFC table 8/12/16/20/24/32; 000 => STREAMINFO depth or Err(NonSubsetBitsPerSample); 011 => Err(InvalidBitsPerSample); side-channel depth = depth+1, absent only at 32
@@ -178,7 +178,7 @@ fn c03_hdr_bits_per_sample_table() {
     }
 }
 
-// @harness prop=C03,C05 tier=quick expect=pass timeout=300
+// @harness prop=C03,C04,C05 tier=quick expect=pass timeout=300
 // @units stream::SubframeHeaderType::from_reader stream::SubframeHeader::from_reader
 // @bound all 64 subframe type codes, padding bit, wasted-bits flag and unary count (<= 63)
 // @oracle RFC 9639 table 19: 0 constant, 1 verbatim, 8..=12 fixed order code-8, 32..=63 LPC order code-31, everything else Err(InvalidSubframeHeaderType); padding bit 1 => Err(InvalidSubframeHeader); wasted = 0 or unary+1
@@ -265,50 +265,50 @@ macro_rules! coded_number {
     };
 }
 
-// @harness prop=C03,C05 tier=quick expect=pass timeout=300
+// @harness prop=C03,C04,C05 tier=quick expect=pass timeout=300
 // @units stream::FrameNumber::from_reader
 // @bound 1-byte coding (0xxxxxxx), all values
 // @oracle value == RFC 9639 coded number, same bits consumed
 coded_number!(c03_hdr_coded_number_1, 0);
 
-// @harness prop=C03,C05 tier=quick expect=pass timeout=300
+// @harness prop=C03,C04,C05 tier=quick expect=pass timeout=300
 // @units stream::FrameNumber::from_reader
 // @bound first byte 10xxxxxx (a continuation byte where a lead byte is due)
 // @oracle Err(InvalidFrameNumber)
 coded_number!(c03_hdr_coded_number_bad_lead, 1);
 
-// @harness prop=C03,C05 tier=quick expect=pass timeout=300
+// @harness prop=C03,C04,C05 tier=quick expect=pass timeout=300
 // @units stream::FrameNumber::from_reader
 // @bound 2-byte coding, every payload and every continuation marker
 // @oracle value == RFC coded number; marker != 10 => Err(InvalidFrameNumber)
 coded_number!(c03_hdr_coded_number_2, 2);
 
-// @harness prop=C03,C05 tier=quick expect=pass timeout=300
+// @harness prop=C03,C04,C05 tier=quick expect=pass timeout=300
 // @units stream::FrameNumber::from_reader
 // @bound 3-byte coding
 coded_number!(c03_hdr_coded_number_3, 3);
 
-// @harness prop=C03,C05 tier=thorough expect=pass timeout=600
+// @harness prop=C03,C04,C05 tier=thorough expect=pass timeout=600
 // @units stream::FrameNumber::from_reader
 // @bound 4-byte coding
 coded_number!(c03_hdr_coded_number_4, 4);
 
-// @harness prop=C03,C05 tier=thorough expect=pass timeout=600
+// @harness prop=C03,C04,C05 tier=thorough expect=pass timeout=600
 // @units stream::FrameNumber::from_reader
 // @bound 5-byte coding
 coded_number!(c03_hdr_coded_number_5, 5);
 
-// @harness prop=C03,C05 tier=thorough expect=pass timeout=600
+// @harness prop=C03,C04,C05 tier=thorough expect=pass timeout=600
 // @units stream::FrameNumber::from_reader
 // @bound 6-byte coding
 coded_number!(c03_hdr_coded_number_6, 6);
 
-// @harness prop=C03,C05 tier=quick expect=pass timeout=600
+// @harness prop=C03,C04,C05 tier=quick expect=pass timeout=600
 // @units stream::FrameNumber::from_reader
 // @bound 7-byte coding (36-bit numbers, variable block size streams), every payload and marker
 coded_number!(c03_hdr_coded_number_7, 7);
 
-// @harness prop=C03,C05 tier=quick expect=pass timeout=300
+// @harness prop=C03,C04,C05 tier=quick expect=pass timeout=300
 // @units stream::FrameNumber::from_reader
 // @bound first byte 11111111
 // @oracle Err(InvalidFrameNumber)
